@@ -206,6 +206,45 @@ theorem C18_closure_from_eof {mx Ta Ti Tn : Nat} (s : Send.State) (src : Bytes) 
   obtain ⟨q1, q2⟩ := c2 pf hpf
   exact ⟨q1, f.responses, by rw [q2, f1, f2]⟩
 
+/-! ### the premises are satisfiable -/
+
+/-- the unacknowledged receiver of `exRU` before the EOF: the Metadata (asking for closure) and both segments are in -/
+def exRU0 : Recv.State :=
+  (recvRun (Recv.new cfgU [([], .dir)] 0) [(0, .pdu mdC), (0, .pdu exOut[1]!), (0, .pdu exOut[2]!)]).1
+/-- an unacknowledged sender that asked for closure, after Metadata, both segments and the EOF -/
+def exSU : Send.State :=
+  (sendRun (Send.new { Send.exCfg with mode := .Unacknowledged } { Send.exMd with closure := true } Send.exFile 0)
+    [(0, .send), (0, .send), (0, .send), (0, .send)]).1
+
+example : (finRounds (recvStep (recvStep exRU0 5 (.pdu exOut[3]!)) 6 .send) [1000000006, 2000000100]).2.length = 2 ∧
+    ∀ pf ∈ (finRounds (recvStep (recvStep exRU0 5 (.pdu exOut[3]!)) 6 .send) [1000000006, 2000000100]).2,
+      (Send.processPdu exSU pf 2000000200).1.state = .Terminated := by
+  have hmd : exRU0.md = some { srcName := [115], dstName := [100], fileSize := 6, closure := true, cksumType := .Null, requests := [] } := by
+    rfl
+  have hsegs : exRU0.segs = [(0, 6)] := by decide
+  have htmp : exRU0.tempFile = some [1, 2, 3, 4, 5, 6] := by decide
+  have hri : RI cfgU.max (cfgU.ta * 1000000000) (cfgU.ti * 1000000000) (cfgU.tn * 1000000000) exRU0 :=
+    ri_run _ _ (ri_new cfgU [([], .dir)] 0 (by decide) (by decide) (by decide) ⟨by decide, by decide, by decide⟩)
+  have hdata : DataOk Send.exFile exRU0 := by
+    refine ⟨?_, ?_, ?_, ?_⟩
+    · rw [hsegs]; exact ⟨fun sg hsg => by simp at hsg; subst hsg; decide, by simp⟩
+    · rw [hsegs]; intro sg hsg; simp at hsg; subst hsg; decide
+    · rw [htmp]; decide
+    · rw [hsegs, htmp]
+      intro x hx
+      obtain ⟨sg, hsg, h1, h2⟩ := hx
+      simp at hsg; subst hsg
+      have : x = 0 ∨ x = 1 ∨ x = 2 ∨ x = 3 ∨ x = 4 ∨ x = 5 := by simp only at h1 h2; omega
+      rcases this with rfl | rfl | rfl | rfl | rfl | rfl <;> rfl
+  have he : ∃ e, (exOut[3]!).payload = .eof e ∧ e.cond = .NoError ∧ e.fileSize = 6 ∧ e.checksum = 0 := ⟨_, rfl, rfl, rfl, rfl⟩
+  obtain ⟨e, hp, he1, he2, he3⟩ := he
+  obtain ⟨c1, c2⟩ := C18_closure_from_eof (mx := 4) (Ta := 1000000000) (Ti := 3000000000) (Tn := 1000000000) exSU Send.exFile _
+    exRU0.fs exRU0 5 6 0 2000000200 exOut[3]! e [1000000006, 2000000100] (by decide) (by decide)
+    (by decide) (by decide) (by decide) hmd rfl (by decide) hdata (by decide) rfl (by decide) (by decide) (by decide) (by decide)
+    hri.inv.rt hp he1 he2 (by rw [he3]; rfl) (by decide)
+    ⟨by decide, by decide, by decide, by decide, by decide, by decide, by decide, by decide, by decide, by decide, trivial⟩
+  exact ⟨c1, fun pf hpf => (c2 pf hpf).1⟩
+
 end Cfdp.Loop
 
 #print axioms Cfdp.Loop.C18_closure_from_eof
